@@ -204,6 +204,21 @@ def shard(ctx, si, payload):
         d = None if alog.exception else diff_tables(base, again)
         if alog.exception is not None or d:
             ctx.violation("reproducible", f"{spec}: two synchronous runs with the same seed differ: {d or alog.exception!r}", wit)
+        # ---- the same seeded run with every registered diagnostic plot requested (non-interactive
+        #      backend): plotting is an observer, the table must be the same bit for bit
+        if payload.get("plots", True):
+            from nuspacesim.utils.plot_function_registry import registry
+
+            names = sorted(registry)
+            ctx.obs["registered_plots"] = names
+            pt, plog = fullrun.compute(cfg, seed=seed, scheduler="synchronous", to_plot=names)
+            ctx.count("plots", max(len(base), 1))
+            if plog.exception is not None:
+                ctx.exception("reproducible", f"{spec}: compute() raised when the diagnostic plots {names} were requested", plog.exception, dict(wit, to_plot=names))
+            else:
+                d = diff_tables(base, pt)
+                if d:
+                    ctx.violation("reproducible", f"{spec}, seed {seed}: requesting the diagnostic plots changes the results table: {d}", dict(wit, to_plot=names))
         # ---- channel isolation
         for off, keep_cols, keep_keys, name in (("radio", OPT_COLS, OPT_KEYS, "optical"), ("optical", RAD_COLS, RAD_KEYS, "radio")):
             c2 = cfg.model_copy(deep=True)
@@ -333,7 +348,7 @@ def run(ctx):
     P.append({"kind": "sequence", "seed": 21 + ctx.seed, "specs": [("Diffuse", "mono", "map", 525.0, 150), ("Diffuse", "power", "mono", 33.0, 150), ("Target", "mono", "map", 2000.0, 2500), ("Diffuse", "mono", None, 2000.0, 150)]})
     P.append({"kind": "sequence", "seed": 22 + ctx.seed, "specs": [("Target", "power", None, 525.0, 2500), ("Target", "mono", "mono", 33.0, 2500), ("Diffuse", "power1", "map", 1000.0, 150)]})
     core.run_shards(ctx, "nssmon.checks.c14", "entry", P, workers=16, timeout=ctx.pick(1500, 7000))
-    for m in ("reproducible", "isolation", "structure", "empty", "sequence"):
+    for m in ("reproducible", "plots", "isolation", "structure", "empty", "sequence"):
         ctx.require(m)
     return ctx.finish(
         rule="configurations from the cross product {Diffuse, Target} x {mono, power-law (also index 1)} x {no cloud, uniform cloud, pressure map} x altitudes {33, 525, 2000} km (quick: a covering subset of 12; thorough: all 36) x seeds; each: synchronous reference, threads-8 with small partitions, processes-2 or an adversarial executor, a repeated synchronous run, radio-off and optical-off runs; plus zero-survivor runs (N = 0 in both modes, a never-occulted target, a single dropped event) in all channel variants; a case is a distinct (configuration, seed, scheduler / variant)",
